@@ -36,7 +36,8 @@ def header():
 # ------------------------------------------------------------------ case generation
 SPECIAL_MANT = [9.95, 9.995, 9.9995, 9.5, 9.49999, 9.949999999, 9.950000001, 9.96, 1.0, 1.05, 1.15, 1.25,
                 1.35, 1.45, 1.5, 2.5, 9.9, 9.99, 9.999999999999, 0.995 * 10, 4.5, 5.0, 5.5, 1.4999999999999999,
-                math.nextafter(10.0, 0.0), math.nextafter(1.0, 2.0), 9.999999999999996]
+                math.nextafter(10.0, 0.0), math.nextafter(1.0, 2.0), 9.999999999999996,
+                9.9999996, 9.99999996, 9.999999996, 9.9999999996, 9.99999951, 9.999999949]
 
 def rand_mant(rng):
     r = rng.random()
@@ -151,7 +152,8 @@ def gen_case(rng, i, tier):
     c = {'fields': rand_fields(rng, malformed), 'malformed': malformed}
     x, u = rand_xu(rng, wide=True)
     c['x'], c['u'] = x, u
-    c['df'] = rng.choice([float('inf'), 3.0, 7.89, 12.3456789, 99999.5, 100000.0, 100000.5, 1e6, 2.5, 1.0000001, 55.55])
+    c['df'] = rng.choice([float('inf'), 3.0, 7.0, 7.89, 9.5, 8.25, 23.0, 4.125, 12.3456789, 99999.5, 100000.0, 100000.5,
+                          100001.0, 2e5, 1e6, 2.5, 1.0000001, 55.55, 6.9, 1.1 + 2.2])
     if r < 0.40: c['route'] = 'format'
     elif r < 0.52: c['route'] = 'create'
     elif r < 0.66: c['route'] = 'apply'
@@ -162,10 +164,12 @@ def gen_case(rng, i, tier):
     else: c['route'] = 'zapply'
     if c['route'] in ('create', 'apply', 'zapply'):
         c['digits'] = rng.choice([None, 1, 2, 3, 4, 6, 9, 12, 15])
-        c['dfp'] = rng.choice([None, 0, 1, 2, 3, 5])
+        c['dfp'] = rng.choice([None, 0, 1, 1, 2, 2, 3, 3, 5])
         c['rp'] = rng.choice([None, 0, 1, 2, 3, 5])
         if c['route'] != 'create':
             c['fields']['style'] = None
+            if not malformed and rng.random() < 0.08:
+                c['fields']['type'] = 'n'          # numbers only: no locale involved in apply_format
     if c['route'] in ('zformat', 'zstr', 'zapply'):
         x, u = rand_xu(rng, wide=False); c['x'], c['u'] = x, u      # u**2 must not under/overflow in the kernel
         x2, u2 = rand_xu(rng, wide=False)
@@ -181,7 +185,8 @@ def gen_case(rng, i, tier):
         c['r'] = rng.choice([0.0, 0.0, 0.5, -0.25, 0.123456, 0.9995, -0.99949, 0.0005])
         if c['df'] < 2: c['df'] = 3.0
     if c['route'] == 'repr':
-        c['label'] = rng.choice([None, None, 'a', 'x_1', "it's"])
+        c['label'] = rng.choice([None, 'a', 'x_1', "it's", 'R1'])
+        if rng.random() < 0.5: c['df'] = rng.choice([100000.0, 100000.5, 100001.0, 2e5, 1e6, 99999.5, 7.0])
     return c
 
 def build_un(c):
